@@ -119,13 +119,36 @@ class Runner:
             a.uri = None
             a.queue.append(("reached_end_of_stream",))
 
-    def _load(self, cov):
+    def _load(self, cov, unlink_fails=False):
         env = self.env
         self._restore()
         env.audio = core_env.AudioEnv(env)
         env.mixer_volume = None
         env.mixer_mute = None
         self.core, self._restore = core_env.make_core(env)
+        if unlink_fails:
+            # the state file can be read but not deleted (read-only directory): the restore has to
+            # go on regardless; the file is cleaned up afterwards so that later loads see none
+            import pathlib
+
+            real_unlink = pathlib.Path.unlink
+            state_file = self.core._get_state_file()
+
+            def failing_unlink(path, *a, **kw):
+                if pathlib.Path(path) == state_file:
+                    raise PermissionError(13, "Permission denied", str(path))
+                return real_unlink(path, *a, **kw)
+
+            pathlib.Path.unlink = failing_unlink
+            try:
+                self.core._load_state([n for n, b in zip(COV_NAMES, cov) if b])
+            finally:
+                pathlib.Path.unlink = real_unlink
+                try:
+                    real_unlink(state_file)
+                except OSError:
+                    pass
+            return
         self.core._load_state([n for n, b in zip(COV_NAMES, cov) if b])
 
     def _call(self, op):
@@ -200,7 +223,7 @@ class Runner:
         if k == "save":
             return ("none", core._save_state())
         if k == "load":
-            return ("none", self._load(op[1]))
+            return ("none", self._load(op[1], len(op) > 2 and bool(op[2])))
         if k == "sethistory":
             from mopidy.models import Ref
 
